@@ -419,6 +419,11 @@ func genC16(c *Ctx) any {
 	r := c.Rand("c16")
 	cs := &C16Case{}
 	cs.Data.Spec = GenDataSpec(c.Rand("data"), r.Range(1, 200), false)
+	if r.Chance(1, 8) {
+		// many keys: a read path that behaves differently beyond some number of bitmaps
+		cs.Data.Spec.N = r.Range(1200, 2500)
+		cs.Data.Spec.Cols = append(cs.Data.Spec.Cols, ColSpec{Name: "wide", Card: r.Range(1001, 2200), Shape: "uniform", Kind: "num"})
+	}
 	cs.Present = []string{"empty", "index", "garbage", "readonly"}[r.Intn(4)]
 	cs.Writer = []string{"flush", "flush", "cli", "cli-big"}[r.Intn(4)]
 	for i, n := 0, r.Range(1, 3); i < n; i++ {
